@@ -45,58 +45,58 @@ def run(ctx: Ctx) -> None:
                 readers.append((f, n))
     r.check(len(readers) == 1 and readers[0][0] is beh, "detect_data_hazards|readers", beh.loc(),
             f"detect_data_hazards is read in {[short(f.qname) for f, _ in readers]}; it must have exactly one reader, ID.behavior")
-    gate = None
-    for n in walk_no_nested(beh.node):
-        if isinstance(n, ast.If) and ast.unparse(n.test) == f"{beh.params[0]}.detect_data_hazards":
-            gate = n
-    if gate is None:
-        r.viol("ID.behavior|gate", beh.loc(), "the interlock is no longer wrapped in `if self.detect_data_hazards:` "
-               "(negated / combined tests would change what the flag disables)")
-        return
-    r.inst("ID.behavior|gate", seg(beh, gate.test))
-    r.check(not gate.orelse, "ID.behavior|gate-else", beh.loc(gate), "the flag's `if` has an else branch: disabling detection does something extra")
-    # only stall_signal (and loop temporaries) are bound inside; no calls with effects; no return
-    bound = set()
-    bad = None
-    for n in ast.walk(gate):
-        if isinstance(n, ast.Assign):
-            for t in n.targets:
-                if isinstance(t, ast.Name):
-                    bound.add(t.id)
-                else:
-                    bad = n
-        if isinstance(n, (ast.AugAssign, ast.Return, ast.Raise, ast.Delete)):
-            bad = n
-    outside_used = set()
-    after = False
-    for st in beh.node.body:
-        if st is gate:
-            after = True
+    # On the normal form of ID.behavior (every local substituted, the returned latch one constructor call): with F = the flag,
+    #   (a) no latch field but stall_signal and no effect's condition or arguments depend on F, except pure look-ups of the
+    #       in-flight destinations (get_write_register of other latches) that only feed the stall decision;
+    #   (b) stall_signal with F assumed false is None, with F assumed true it does not mention F any more (F gates, nothing else);
+    #   (c) every StallSignal(..) the stage can produce sits under F.
+    from ..stagespec import stage_flow
+    fl = stage_flow(ctx, "InstructionDecodeStage")
+    pr = fl.cprinter
+    F = ast.Attribute(value=ast.Name(id=beh.params[0], ctx=ast.Load()), attr="detect_data_hazards", ctx=ast.Load())
+    Ftxt = pr.show(F)
+
+    def mentions(x: ast.AST) -> bool:
+        return any(isinstance(y, ast.Attribute) and y.attr == "detect_data_hazards" for y in ast.walk(x))
+
+    full = [x for x in fl.returns if isinstance(x.value, ast.Call) and x.value.keywords]
+    if not full:
+        raise AnalysisError("anchor vanished: InstructionDecodeStage.behavior no longer returns a latch built with keyword arguments")
+    n_f = 0
+    for x in full:
+        for k in x.value.keywords:  # type: ignore[union-attr]
+            if k.arg == "stall_signal":
+                n_f += 1
+                off = pr.resolve_under(k.value, pr._bool(F, False))
+                on = pr.resolve_under(k.value, pr._bool(F, True))
+                r.check(isinstance(off, ast.Constant) and off.value is None, "ID.behavior|gate", beh.loc(),
+                        f"with detect_data_hazards off the stall signal is `{pr.show(off)}`, not None: the flag no longer disables the interlock")
+                r.check(not mentions(on), "ID.behavior|gate-else", beh.loc(),
+                        "with detect_data_hazards on the stall decision still consults the flag (negated / combined tests change what the flag disables)")
+                stalls = [y for y in ast.walk(off) if isinstance(y, ast.Call) and isinstance(y.func, ast.Name) and y.func.id == "StallSignal"]
+                r.check(not stalls, "ID.behavior|StallSignal", beh.loc(), "a decode stall is requested although the flag is off")
+            else:
+                r.check(not mentions(k.value), f"ID.behavior|field {k.arg}", beh.loc(),
+                        f"latch field `{k.arg}` depends on detect_data_hazards: decode would behave differently with detection off beyond the missing stall")
+        r.check(not any(mentions(t) for t, _p in x.cond), "ID.behavior|gate-body", beh.loc(), "whether ID returns its latch depends on detect_data_hazards")
+    for e in fl.effects:
+        dep = any(mentions(t) for t, _p in e.cond) or mentions(e.expr)
+        if not dep:
             continue
-        if after:
-            outside_used |= {x.id for x in ast.walk(st) if isinstance(x, ast.Name)}
-    leak = (bound & outside_used) - {"stall_signal"}
-    r.check(bad is None and not leak, "ID.behavior|gate-body", beh.loc(bad or gate),
-            f"the gated block does more than bind stall_signal (stores/returns: {seg(beh, bad) if bad else None}; "
-            f"names leaking out: {sorted(leak)})")
-    # every StallSignal inside the gate
-    for c in calls_in(beh.node):
-        if isinstance(c.func, ast.Name) and c.func.id == "StallSignal":
-            inside = any(c is x for x in ast.walk(gate))
-            r.check(inside, "ID.behavior|StallSignal", beh.loc(c), "a decode stall is requested outside the flag's `if`")
-    # register read / producer lookup / latch outside
-    for what, pred in (("access_register_file", lambda c: isinstance(c.func, ast.Attribute) and c.func.attr == "access_register_file"),
-                       ("get_write_register of own instruction", lambda c: ast.unparse(c.func) == "pipeline_register.instruction.get_write_register"),
-                       ("InstructionDecodePipelineRegister(..)", lambda c: ast.unparse(c.func) == "InstructionDecodePipelineRegister")):
-        sites = [c for c in calls_in(beh.node) if pred(c)]
-        ok = bool(sites) and not any(c is x for c in sites for x in ast.walk(gate))
-        r.check(ok, f"ID.behavior|{what}", beh.loc(), f"{what} moved inside the flag's `if` (or vanished): decode would behave "
-                "differently with detection off beyond the missing stall")
-    # stall_signal defaults to None before the gate
-    pre = [st for st in beh.node.body[: beh.node.body.index(gate)] if isinstance(st, ast.Assign)
-           and ast.unparse(st.targets[0]) == "stall_signal"]
-    r.check(bool(pre) and isinstance(pre[-1].value, ast.Constant) and pre[-1].value.value is None, "ID.behavior|default", beh.loc(),
-            "stall_signal is not None by default")
+        pure_lookup = e.kind == "call" and isinstance(e.expr, ast.Call) and isinstance(e.expr.func, ast.Attribute) \
+            and e.expr.func.attr in ("get_write_register",) and not mentions(e.expr)
+        pure_lookup = pure_lookup or (e.kind == "call" and isinstance(e.expr, ast.Call) and isinstance(e.expr.func, ast.Name)
+                                      and e.expr.func.id == "StallSignal" and not mentions(e.expr))  # building the signal itself
+        is_assert = e.kind == "raise" and "AssertionError" in pr.show(e.expr)
+        if e.kind == "call" and isinstance(e.expr, ast.Call) and isinstance(e.expr.func, ast.Name) and e.expr.func.id == "InstructionDecodePipelineRegister" \
+                and not any(mentions(t) for t, _p in e.cond):
+            continue  # the returned latch: judged field by field above
+        r.check(pure_lookup or is_assert, "ID.behavior|gate-body", beh.loc(e.node),
+                f"`{pr.show(e.expr)[:120]}` happens depending on detect_data_hazards: the gated part must only decide the stall signal")
+    if n_f == 0:
+        raise AnalysisError("anchor vanished: stall_signal field of the ID latch")
+    for what in ("access_register_file", "InstructionDecodePipelineRegister"):
+        r.inst(f"ID.behavior|{what}", "independent of the flag (see field / effect checks)")
     r.floor(8)
 
     r = ctx.rule("R08.thread", "constructor flag reaches ID unmodified")
